@@ -20,10 +20,10 @@ type step struct {
 }
 
 type column struct {
-	steps  []step
-	elem   string
-	s      int // shared prefix with previous column
-	readFn string
+	steps   []step
+	elem    string
+	s       int // shared prefix with previous column
+	readFn  string
 	writeFn string
 }
 
